@@ -5,7 +5,7 @@
    and append_value panic, and the arena is unchanged in all nine cases; a node created in a
    recycled slot starts with no links (C07_new_node: fresh_node). *)
 From IT Require Import Props.
-From IT.proofs Require Import Reach Reach2.
+From IT.proofs Require Import Reach Reach2 MonitorSound.
 Open Scope Z_scope.
 
 Theorem C12_no_links : forall ops i n, valid_hist false init ops -> let w := reach ops in
@@ -37,7 +37,13 @@ Proof. exact reach_append_value_removed. Qed.
 Theorem C12_monitor_silent : forall ops, valid_hist false init ops -> c12_state (ar (reach ops)) = [].
 Proof. exact reach_c12_silent. Qed.
 
+Theorem C12_monitor_sound : forall a, c12_state a = [] ->
+  forall i n, nth_error (nodes a) i = Some n -> stamp n < 0 ->
+    parent n = None /\ prev n = None /\ next n = None /\ first n = None /\ last n = None.
+Proof. exact c12_state_sound. Qed.
+
 Print Assumptions C12_no_links.
+Print Assumptions C12_monitor_sound.
 Print Assumptions C12_unreachable.
 Print Assumptions C12_refused_checked.
 Print Assumptions C12_refused_unchecked.
